@@ -1011,6 +1011,12 @@ THEOREMS["SaisWidth"] = ["RbV.Thm.C03.sais_width_arms_fit", "RbV.Thm.C03.sais_re
                          "RbV.Thm.C03.sais_transform_width_fits"]
 
 
+# genhmm: the generic HMM algorithms (C14) — dialect "hmm" of tools/rs2lean_genhmm.py; Thm/C14.lean imports
+# RbV.Thm.GenSrcHmm* and restates the theorems
+TRANSLATOR_MODULES.append("rs2lean_genhmm")
+GEN_SRC.update({n: gen_src(n) for n in ("SrcHmmViterbi", "SrcHmmForward", "SrcHmmBackward")})
+EXTRACTORS["C14"] = EXTRACTORS.get("C14", []) + [GEN_SRC[n] for n in ("SrcHmmViterbi", "SrcHmmForward", "SrcHmmBackward")]
+
 def main():
     ap = argparse.ArgumentParser()
     ap.add_argument("--repo", default=os.environ.get("VERIF_REPO", "/repo"))
